@@ -128,7 +128,7 @@ func selfCheckSpecs() error {
 // step is one user action of a history, followed (unless NoReconcile) by reconciles of the
 // revision controller until one makes no effective write.
 type step struct {
-	Op          string `json:"op"` // edit | strip | restore | foreign-add | foreign-remove
+	Op          string `json:"op"` // edit | strip | restore | foreign-add | foreign-remove | delete-highest | release
 	Content     int    `json:"content,omitempty"`
 	NoReconcile bool   `json:"noReconcile,omitempty"`
 }
@@ -197,6 +197,10 @@ func baseHistories() []history {
 		{Name: "foreign-mid", Contents: []content{A, B, C}, Steps: []step{ed(0), ed(1), fadd, ed(2), frm, ed(0)}},
 		{Name: "foreign-first", Contents: []content{A, B}, Steps: []step{{Op: "foreign-add", NoReconcile: true}, ed(0), frm, ed(1), ed(0)}},
 		{Name: "foreign-stays", Contents: []content{A, Abeta}, Steps: []step{ed(0), ed(1), ed(0), fadd, ed(1)}},
+		// the highest-numbered revision is deleted but lingers (a finalizer holds it) while the
+		// Composition is edited to new content and reverted
+		{Name: "highest-terminating", Contents: []content{A, B, C, D}, Steps: []step{ed(0), ed(1), ed(2), {Op: "delete-highest"}, ed(3), ed(0), ed(1), {Op: "release"}, ed(2)}},
+		{Name: "highest-terminating-revert", Contents: []content{A, B, C}, Steps: []step{ed(0), ed(1), {Op: "delete-highest", NoReconcile: true}, ed(0), ed(2), {Op: "release"}, ed(1)}},
 	}
 }
 
